@@ -335,3 +335,47 @@ def region_walk(ix: Any, f: FuncInfo, depth: int = 2) -> Iterator[tuple[FuncInfo
     for g in region(ix, f, depth):
         for n in ast.walk(g.node):
             yield g, n
+
+
+def terminals(body: list[ast.stmt], ev: Callable[[ast.expr], "bool | None"]) -> tuple[set[ast.stmt], bool]:
+    """(statements that can END the function - return / raise -, can the block fall through) when `if` tests are decided by `ev`
+    (True / False / None = both ways).  Tests are evaluated structurally (not / and / or over atoms given to ev); loops, with and try
+    bodies may or may not run.  Indifferent to early-return versus nested-if form and to branch order."""
+
+    def val(t: ast.expr) -> "bool | None":
+        v = ev(t)
+        if v is not None:
+            return v
+        if isinstance(t, ast.UnaryOp) and isinstance(t.op, ast.Not):
+            x = val(t.operand)
+            return None if x is None else not x
+        if isinstance(t, ast.BoolOp):
+            xs = [val(x) for x in t.values]
+            if isinstance(t.op, ast.And):
+                return False if any(x is False for x in xs) else (True if all(x is True for x in xs) else None)
+            return True if any(x is True for x in xs) else (False if all(x is False for x in xs) else None)
+        return None
+
+    terms: set[ast.stmt] = set()
+    for st in body:
+        if isinstance(st, (ast.Return, ast.Raise)):
+            terms.add(st)
+            return terms, False
+        if isinstance(st, ast.If):
+            v = val(st.test)
+            arms = [st.body] if v is True else [st.orelse] if v is False else [st.body, st.orelse]
+            falls = False
+            for arm in arms:
+                t2, f2 = terminals(arm, ev)
+                terms |= t2
+                falls = falls or f2
+            if not falls:
+                return terms, False
+            continue
+        for fld in ("body", "orelse", "finalbody"):
+            sub = getattr(st, fld, None)
+            if isinstance(sub, list) and sub and isinstance(sub[0], ast.stmt) and not isinstance(st, (ast.FunctionDef, ast.AsyncFunctionDef, ast.ClassDef)):
+                terms |= terminals(sub, ev)[0]
+        for h in getattr(st, "handlers", []) or []:
+            terms |= terminals(h.body, ev)[0]
+    return terms, True
